@@ -454,9 +454,12 @@ fn do_from_expr(
     }
 }
 
+fn dot_escape(s: &str) -> String {
+    s.replace('\\', "\\\\").replace('"', "\\\"")
+}
+
 pub(crate) fn make_dot_string_constant(s: &str) -> String {
-    let escaped = s.replace('\\', "\\\\").replace('"', "\\\"");
-    format!(r#""{escaped}""#)
+    format!(r#""{}""#, dot_escape(s))
 }
 
 fn do_to_dot<W: Write>(
@@ -536,6 +539,8 @@ fn do_to_dot<W: Write>(
             else {
                 unreachable!();
             };
+            let literal = dot_escape(&literal);
+            let description = description.map(|d| dot_escape(&d));
             if let Some(description) = description {
                 writeln!(
                     output,
@@ -556,6 +561,7 @@ fn do_to_dot<W: Write>(
             let RegexInput::Nonterminal { nonterm, .. } = input else {
                 unreachable!()
             };
+            let nonterm = dot_escape(&nonterm);
             writeln!(
                 output,
                 r#"{indentation}{node_dot_id}[label="{pos}: <{nonterm}>"];"#
